@@ -21,7 +21,7 @@ DRIFT = {"Conformance"}
 
 PERIOD, GENESIS, TMIN, TMAX = 3, 100, 110, 112
 
-BASE_INV = "TypeOK Inv_SameTerms Inv_OrderIndependent Inv_OwnIndex Inv_SameQual Inv_NoLoss Inv_SameGroupButTransition"
+BASE_INV = "TypeOK Inv_SameTerms Inv_OrderIndependent Inv_OwnIndex Inv_SameQual Inv_NoLoss Inv_EchoHeals Inv_SameGroupButTransition"
 
 
 def _set(xs):
@@ -44,9 +44,11 @@ def _cfg(shape, sim=False, depth=160, maxdup=4, invs=None):
              "  RankChoices <- %s" % (("SimRanks" if sim else shape.get("ranks", "RotRank"))),
              "  PermuteLists = %s" % ("TRUE" if (sim or shape.get("perm")) else "FALSE"),
              "  AtomicGossip = %s" % ("TRUE" if shape.get("ag") else "FALSE"),
-             "  AtomicExec = %s" % ("TRUE" if shape.get("ae") else "FALSE")]
+             "  AtomicExec = %s" % ("TRUE" if shape.get("ae") else "FALSE"),
+             "  MaxDrop = %d" % shape.get("drop", 0)]
     if sim:
-        lines += ["  Depth = %d" % depth, "  MaxDup = %d" % maxdup]
+        lines += ["  Depth = %d" % depth, "  MaxDup = %d" % maxdup,
+                  "  ShiftRanks = %s" % ("TRUE" if shape.get("shift") else "FALSE")]
     else:
         lines += ["INVARIANTS " + (invs or (BASE_INV + " Inv_SameGroup")), "VIEW View"]
     lines.append("CHECK_DEADLOCK FALSE")
@@ -64,6 +66,12 @@ SWAP = dict(name="swap", n=4, epoch=2, join=[4], remain=[1, 2], leave=[3], leade
 FIRST5 = dict(name="first5", n=5, epoch=1, join=[1, 2, 3, 4, 5], leader=3, thr=3)
 ADD5 = dict(name="add5", n=5, epoch=2, join=[5], remain=[1, 2, 3, 4], leader=4, thr=4, prevThr=3)
 LATE3 = dict(name="late3", n=3, epoch=1, join=[1, 2, 3], leader=1, thr=2, late=[3])
+# one bundle lost on one directed link (only the echo can heal it); the joiner's key sorts before
+# some member, so that indices in the old and the new group differ
+ADDDROP = dict(name="adddrop", n=4, epoch=2, join=[4], remain=[1, 2, 3], leader=2, thr=3, prevThr=2, ag=True,
+               drop=1, shift=True, cover=("D", "R"), simnum=400)
+LATE4DROP = dict(name="late4drop", n=4, epoch=1, join=[1, 2, 3, 4], leader=1, thr=3, late=[2], ag=True,
+                 drop=1, cover=("J",), simnum=600)
 LATE4 = dict(name="late4", n=4, epoch=1, join=[1, 2, 3, 4], leader=1, thr=3, late=[2])
 
 
@@ -81,6 +89,8 @@ def _exhaustive_jobs(quick):
         ("reshare3", _with(RESHARE3, **one), None, True),
         ("late3", _with(LATE3, ag=True, tmax=TMIN + 1), None, True),
         ("remove", _with(REMOVE, ag=True, **one), None, True),
+        # one lost direct bundle on any link: the echo heals it, same outcome
+        ("reshare3drop", _with(RESHARE3, ag=True, drop=1, **one), None, True),
         # every key order x every listing order, completion anywhere in the window
         ("perm3", _with(FIRST3, ag=True, ae=True, ranks="AllRanks", perm=True), None, True),
         ("permadd", _with(ADD, ag=True, ae=True, ranks="AllRanks", perm=True, **one), None, True),
@@ -96,6 +106,9 @@ def _exhaustive_jobs(quick):
             ("addexec", _with(ADD, ag=True, **one), None, True),
             ("reshare4exec", _with(RESHARE4, ag=True, **one), None, True),
             ("late4", _with(LATE4, ag=True, **one), None, True),
+            ("adddrop", _with(ADD, ag=True, drop=1, **one), None, True),
+            ("late4drop", _with(LATE4, ag=True, drop=1, **one), None, True),
+            ("first4drop", _with(FIRST4, ag=True, drop=1, **one), None, True),
             ("perm4", _with(FIRST4, ag=True, ae=True, ranks="AllRanks", perm=True), None, True),
             ("permswap", _with(SWAP, ag=True, ae=True, ranks="AllRanks", perm=True), BASE_INV, True),
         ]
@@ -162,6 +175,8 @@ def _steps(ops):
                           "from": o.get("from", 0)})
         elif nm in ("BDeliver", "BDup"):
             steps.append({"k": "b" if nm == "BDeliver" else "bdup", "typ": o["kind"], "origin": o["origin"], "to": o["to"]})
+        elif nm == "BDrop":
+            steps.append({"k": "bdrop", "typ": o["kind"], "origin": o["origin"], "to": o["to"]})
         elif nm in ("Start", "Timeout", "Complete", "Fail"):
             steps.append({"k": nm.lower(), "n": o["n"]})
         elif nm == "ExecAll":
@@ -224,8 +239,8 @@ def _walk_jobs(ctx, shapes):
         cfg = "Sim_DKGExec_gen_%s.cfg" % shape["name"]
         with open(os.path.join(d, cfg), "w") as fh:
             fh.write(_cfg(shape, sim=True, depth=depth))
-        thunks.append(lambda d=d, cfg=cfg, num=num, depth=depth, i=i: core.run_tlc(
-            d, "Sim_DKGExec", cfg, workers=1, timeout=300, simulate="num=%d" % (2 * num + 2), depth=depth + 5,
+        thunks.append(lambda d=d, cfg=cfg, num=num, depth=depth, i=i, shape=shape: core.run_tlc(
+            d, "Sim_DKGExec", cfg, workers=1, timeout=300, simulate="num=%d" % shape.get("simnum", 2 * num + 2), depth=depth + 5,
             seed=ctx.seed * 101 + i))
     return thunks
 
@@ -241,6 +256,8 @@ def _walk_results(ctx, shapes, res):
             ctx.inconclusive.append("TLC simulation failed on Sim_DKGExec/%s: %s\n%s" % (shape["name"], r.error or "timeout", r.out[-1500:]))
             continue
         seen, k = set(), 0
+        cover = shape.get("cover")
+        links = set()
         for tag, obj in core.parse_vp_prints(r.prints):
             if not obj or not obj.get("complete"):
                 continue
@@ -248,14 +265,20 @@ def _walk_results(ctx, shapes, res):
             if key in seen:
                 continue
             seen.add(key)
-            if k >= num:
+            if cover:
+                # one walk per lost link: every directed link of the covered bundle kinds, up to `num`
+                d = [(o["kind"], o["origin"], o["to"]) for o in obj["hist"] if o.get("name") == "BDrop"]
+                if not d or d[0][0] not in cover or d[0] in links or k >= num:
+                    continue
+                links.add(d[0])
+            elif k >= num:
                 break
             cls = "tlc-%s-%s" % ("cex" if tag == "CEX" else "walk", shape["name"])
             s = _script("%s-%d" % (cls, k), cls, shape, obj["rank"], obj["hist"])
             if s:
                 scripts.append(s)
                 k += 1
-        ctx.log("TLC walks for %s: %d scripts" % (shape["name"], k))
+        ctx.log("TLC walks for %s: %d scripts%s" % (shape["name"], k, (" (lost links %s)" % sorted(links)) if cover else ""))
         if k == 0:
             ctx.inconclusive.append("TLC simulation produced no complete walk for shape %s" % shape["name"])
     return scripts
@@ -265,12 +288,16 @@ def run(ctx, monitors):
     q = ctx.quick
     if q:
         shapes = [(FIRST3, 2, 170), (RESHARE3, 2, 200), (ADD, 1, 260), (REMOVE, 1, 220), (LATE3, 1, 170),
-                  (_with(RESHARE3, name="reshare3atomic", ag=True, ae=True), 2, 40)]
+                  (_with(RESHARE3, name="reshare3atomic", ag=True, ae=True), 2, 40),
+                  (ADDDROP, 12, 150), (LATE4DROP, 2, 170)]
     else:
         shapes = [(FIRST3, 8, 170), (FIRST4, 6, 300), (FIRST5, 3, 460), (RESHARE3, 8, 200), (RESHARE4, 4, 330), (ADD, 6, 260),
                   (ADD5, 2, 480), (REMOVE, 4, 220), (SWAP, 4, 220), (LATE3, 4, 170), (LATE4, 3, 300),
                   (_with(RESHARE3, name="reshare3atomic", ag=True, ae=True), 8, 40),
-                  (_with(ADD, name="addatomic", ag=True, ae=True), 6, 40)]
+                  (_with(ADD, name="addatomic", ag=True, ae=True), 6, 40),
+                  (_with(ADDDROP, simnum=800), 21, 150), (_with(LATE4DROP, simnum=600), 6, 170),
+                  (_with(SWAP, name="swapdrop", ag=True, drop=1, cover=("D", "R"), simnum=500), 8, 150),
+                  (_with(FIRST4, name="first4drop", ag=True, drop=1, cover=("D", "R"), simnum=400), 6, 150)]
     # 1. design level (exhaustive) and 2. behaviour generation run side by side, while the test
     #    binary is built from the current tree
     jobs, dthunks = _design_jobs(ctx)
